@@ -411,6 +411,26 @@ fn long_lived_instance(sets: &mut Sets, st: &mut Stats) {
     }
 }
 
+/// Nonces of PKE ciphertexts of large plaintexts (whatever path large inputs take, each gets a
+/// nonce of its own), on two instances.
+fn large_plaintexts(sets: &mut Sets, st: &mut Stats) {
+    let Some(fx) = fixture() else { return };
+    let other = Covercrypt::default();
+    for len in [65_536usize, (1 << 20) - 1, 1 << 20, (1 << 20) + 1, (1 << 21) + 3, 5 << 20] {
+        let ptx = vec![0x5au8; len];
+        for (i, cc) in [&fx.cc, &other, &fx.cc, &other].into_iter().enumerate() {
+            let ap = if i % 2 == 0 { &fx.classic_ap } else { &fx.hybrid_ap };
+            if let Out::Ok((_, c)) = call(|| <Covercrypt as PkeAc<{ Aes256Gcm::KEY_LENGTH }, Aes256Gcm>>::encrypt(cc, &fx.mpk, ap, &ptx)) {
+                st.bump("large_plaintext_encryptions");
+                if c.len() >= 12 {
+                    sets.put("PKE nonce", c[..12].to_vec());
+                }
+            }
+        }
+        st.shapes.insert(fnv(format!("large-plaintext|{len}").as_bytes()));
+    }
+}
+
 /// Many instances in one process: every instance must have its own randomness (master scalar from
 /// `setup`, first encapsulated secret).
 fn many_instances(sets: &mut Sets, st: &mut Stats, n: usize) {
@@ -469,6 +489,7 @@ pub fn run(tier: &str, _seed: u64, threads: usize) -> Stats {
         let mut seq = Sets::default();
         sequential_pairs(&mut seq, &mut st);
         long_lived_instance(&mut seq, &mut st);
+        large_plaintexts(&mut seq, &mut st);
         many_instances(&mut seq, &mut st, if tier == "thorough" { 20_000 } else { 1_200 });
         for (k, d) in &seq.dups {
             if *d > 0 {
